@@ -160,6 +160,7 @@ def checkStress (lines : List String) : CaseResult := Id.run do
             else if what == "fbcreate" then "fallback_same_prefix"
             else if what == "manygens" then "generators_share_ids"
             else if what == "snapconc" then "restored_generator_repeats_ids"
+            else if what == "ctxclock" then "generator_with_context_clock_repeats_ids"
             else "stress_duplicate"
           r := { r with specs := s!"{sig}: {dups} duplicates among {total} ids ({gor} goroutines x {each} x {gens} generators), first {first}" :: r.specs }
         r := { r with nontrivial := total > 1 }
@@ -268,6 +269,7 @@ def check (params : List String) (lines : List String) : CaseResult :=
   | "fb_create" :: _ => checkStress lines
   | "many_gens" :: _ => checkStress lines
   | "snap_conc" :: _ => checkStress lines
+  | "ctx_clock" :: _ => checkStress lines
   | "fb_single" :: _ => checkFb lines
   | "engine" :: builder :: _ => checkEngine builder lines
   | _ => { bad := ["c20 params"] }
